@@ -3,8 +3,8 @@
      template<> size_t itoa<unsigned int>(unsigned int value, char *result, int base)
      template<typename T> T fast_atoi(const char *str, const char term = '\0')
                                                      (T = int, unsigned, unsigned short)
-   as of commit a8219b1 (fast_atoi honours a leading '-' for signed T and accumulates
-   retval * 10 +/- ( *str - '0' )); the routine as it was before that repair is kept at the end
+   as of commit 1965750 (a leading '-' is honoured for signed T -- a8219b1 -- and the value is
+   accumulated in the unsigned type and negated at the end); the routine as it was before a8219b1 is kept at the end
    of the file as fast_atoi_orig / fast_atoi_checked_orig, for the refutation witnesses only.
    Transcribed statement by statement.  No proofs in this file.
    Text is a list of bytes 0..255 (as Z); the terminating NUL of a C string is implicit. *)
@@ -76,56 +76,47 @@ Definition schar (b : Z) : Z := if b <? 128 then b else b - 256.
 
 Inductive ity := T_int | T_uint | T_ushort.
 
-(* Outcome of a parse.  For T = int every int operation is checked in evaluation order (this is
-   what the fully sanitized build observes): leaving [INT_MIN, INT_MAX] is undefined behaviour. *)
+(* Outcome of a parse.  Since commit 1965750 the accumulator is unsigned for every T, so there is no
+   undefined operation left; the only thing that can go wrong is a terminator other than NUL that
+   does not occur in the string. *)
 Inductive atoi_result :=
   | AR_ok (v : Z)
-  | AR_overflow               (* signed integer overflow in retval * 10 or in the +/- that follows *)
-  | AR_oob.                   (* a terminator other than NUL that does not occur: the loop runs off the string *)
+  | AR_oob.                   (* the loop runs off the end of the string *)
 
-Definition in_int (x : Z) : bool := (- W31 <=? x) && (x <? W31).
+(* two's complement reinterpretation of the low 32 bits: static_cast<int>(unsigned) *)
+Definition sint32 (x : Z) : Z := let y := x mod W32 in if y <? W31 then y else y - W32.
 
-(* T = int:  retval = retval * 10 + ( *str - '0' )   resp.   retval * 10 - ( *str - '0' ) *)
-Definition int_step (down : bool) (retval c : Z) : atoi_result :=
-  let a := retval * 10 in
-  if negb (in_int a) then AR_overflow
-  else
-    let b := schar c - 48 in                       (* char promoted to int: no overflow *)
-    let r := if down then a - b else a + b in
-    if negb (in_int r) then AR_overflow else AR_ok r.
+(* using U = typename std::make_unsigned<T>::type;   2^(bits of U) *)
+Definition umod (ty : ity) : Z := match ty with T_ushort => W16 | _ => W32 end.
 
-(* T = unsigned: retval * 10 is unsigned, ( *str - '0' ) is converted to unsigned: mod 2^32;
-   T = unsigned short: computed in int (retval <= 65535: no overflow), stored mod 2^16 *)
-Definition uns_step (ty : ity) (retval c : Z) : atoi_result :=
-  let raw := retval * 10 + (schar c - 48) in
-  match ty with
-  | T_ushort => AR_ok (raw mod W16)
-  | _ => AR_ok (raw mod W32)
-  end.
+(* retval = retval * 10 + static_cast<U>( *str - '0' );
+   U = unsigned: both operands unsigned, arithmetic mod 2^32;
+   U = unsigned short: the operands are promoted to int (retval * 10 <= 655350 and the converted
+   digit <= 65535: no overflow) and the assignment converts back mod 2^16 *)
+Definition atoi_step (ty : ity) (retval c : Z) : Z :=
+  (retval * 10 + (schar c - 48) mod umod ty) mod umod ty.
 
 (* for (; *str != term; ++str) retval = step(retval, *str);
    [] is the terminating NUL of the C string *)
-Fixpoint atoi_loop (step : Z -> Z -> atoi_result) (term : Z) (str : list Z) (retval : Z) : atoi_result :=
+Fixpoint atoi_loop (ty : ity) (term : Z) (str : list Z) (retval : Z) : atoi_result :=
   match str with
   | [] => if term =? 0 then AR_ok retval else AR_oob
-  | c :: rest => if c =? term then AR_ok retval
-                 else match step retval c with
-                      | AR_ok r => atoi_loop step term rest r
-                      | e => e
-                      end
+  | c :: rest => if c =? term then AR_ok retval else atoi_loop ty term rest (atoi_step ty retval c)
   end.
 
-(* if (std::is_signed<T>::value && *str == '-') { for (++str; ...) retval = retval * 10 - ...; }
-   else for (; ...) retval = retval * 10 + ...; *)
+(* const bool neg(std::is_signed<T>::value && *str == '-');  if (neg) ++str;  ...loop...
+   return static_cast<T>(neg ? U(0) - retval : retval); *)
 Definition fast_atoi (ty : ity) (term : Z) (str : list Z) : atoi_result :=
-  match ty with
-  | T_int =>
-    match str with
-    | c :: rest => if c =? 45 then atoi_loop (int_step true) term rest 0
-                   else atoi_loop (int_step false) term str 0
-    | [] => atoi_loop (int_step false) term [] 0
-    end
-  | _ => atoi_loop (uns_step ty) term str 0
+  let neg := match ty, str with
+             | T_int, c :: _ => c =? 45
+             | _, _ => false
+             end in
+  let str := if neg then tl str else str in
+  match atoi_loop ty term str 0 with
+  | AR_ok retval =>
+    let u := if neg then (0 - retval) mod umod ty else retval in
+    AR_ok (match ty with T_int => sint32 u | _ => u end)
+  | AR_oob => AR_oob
   end.
 
 (* Field<int>::print followed by the Field<int>(const char * ) constructor *)
@@ -141,11 +132,11 @@ Definition uint_roundtrip (v : Z) : option (list Z * atoi_result) :=
   | Some t => Some (t, fast_atoi T_uint 0 t)
   end.
 
-(* ------------------------------------------------ the routine BEFORE the repair (a8219b1^) *)
+(* ------------------------------------------------ the routine BEFORE the repairs (a8219b1^) *)
 (* retval = (retval << 3) + (retval << 1) + *str - '0';  no sign handling.  Kept only for the
    refutation witnesses c08_atoi_neg_orig_refuted / c08_atoi_top_overflow_orig_refuted. *)
 
-Definition sint32 (x : Z) : Z := let y := x mod W32 in if y <? W31 then y else y - W32.
+Definition in_int (x : Z) : bool := (- W31 <=? x) && (x <? W31).
 
 (* two's complement result (what the hardware produced) *)
 Definition atoi_step_orig (retval c : Z) : Z :=
